@@ -6,10 +6,11 @@ encoder's stream and touches nothing else.  Numbers too large for the float
 width make `struct` raise OverflowError (the property excludes those inputs).
 Options: non-strict mode here; the strict clauses are separate behaviours (C10).
 """
-from pyvc.contracts import target, R, implies
-from pyvc.dsl import seq_items
+from pyvc.contracts import target, R, implies, same
+from pyvc.dsl import seq_items, is_data
 import spec.core as S
 import spec.avro as A
+import contracts.lemmas as L
 
 W = "fastavro/_write_py.py"
 
@@ -146,10 +147,12 @@ class write_enum:
 @target(W, "write_array")
 class write_array:
     """one counted block followed by the terminator; the terminator alone when empty"""
+    opaque_here = ["VALID", "SEL", "STRIP", "DEFER_DOUBLE", "FIRST_NONREC", "BEST_REC"]
     types = dict(encoder="BinaryEncoder", datum="py", schema="dict", named_schemas="dict", fname="py", options="dict")
     requires = lambda encoder, datum, schema, named_schemas, options: (
         encoder._fo.pos == len(encoder._fo.data)
         and A.TYPE(schema) == "array" and A.WF(schema, named_schemas)
+        and A.DEFAULTS_DATA(schema, named_schemas, options) and is_data(datum)
         and A.CONFORMS(datum, schema, named_schemas, options)
         and not options.get("strict") and not options.get("strict_allow_default"))
     modifies = ["encoder._fo"]
@@ -167,10 +170,12 @@ class write_array:
 
 @target(W, "write_map")
 class write_map:
+    opaque_here = ["VALID", "SEL", "STRIP", "DEFER_DOUBLE", "FIRST_NONREC", "BEST_REC"]
     types = dict(encoder="BinaryEncoder", datum="py", schema="dict", named_schemas="dict", fname="py", options="dict")
     requires = lambda encoder, datum, schema, named_schemas, options: (
         encoder._fo.pos == len(encoder._fo.data)
         and A.TYPE(schema) == "map" and A.WF(schema, named_schemas)
+        and A.DEFAULTS_DATA(schema, named_schemas, options) and is_data(datum)
         and A.CONFORMS(datum, schema, named_schemas, options)
         and not options.get("strict") and not options.get("strict_allow_default"))
     modifies = ["encoder._fo"]
@@ -189,13 +194,15 @@ class write_map:
 
 @target(W, "write_union")
 class write_union:
-    """ASSUMED here (trusted = True): index of the branch SEL selects, then the value.
-    The branch search itself is checked by the bounded stand-in of C09 (DESIGN 7/C09)."""
-    trusted = True
-    types = dict(encoder="BinaryEncoder", datum="py", schema="py", named_schemas="dict", fname="py", options="dict")
+    """C09 + C02: the index of the branch SEL selects (the statement's rule), then the value under it.
+    A (name, value) hint naming no branch is an error."""
+    unfold_here = ["NS_CLEAN"]     # a dict branch's type keyword is not a key of the name table
+    types = dict(encoder="BinaryEncoder", datum="py", schema="list", named_schemas="dict", fname="py", options="dict")
     requires = lambda encoder, datum, schema, named_schemas, options: (
-        encoder._fo.pos == len(encoder._fo.data)
-        and A.TYPE(schema) == "union" and isinstance(schema, list) and A.WF(schema, named_schemas)
+        is_data(datum)
+        and encoder._fo.pos == len(encoder._fo.data)
+        and A.WF(schema, named_schemas)
+        and A.DEFAULTS_DATA(schema, named_schemas, options)
         and A.CONFORMS(datum, schema, named_schemas, options)
         and not options.get("strict") and not options.get("strict_allow_default"))
     modifies = ["encoder._fo"]
@@ -204,15 +211,93 @@ class write_union:
     ensures = lambda encoder, datum, schema, named_schemas, options, result: (
         encoder._fo.data == old.encoder._fo.data + A.ENC(schema, named_schemas, datum, options)
         and encoder._fo.pos == len(encoder._fo.data) and result is None)
+    uses_locals = ["name", "best_match_index", "most_fields", "could_be_float"]
+    entry_asserts = [
+        # what the precondition says about the branch the rule selects (CONFORMS / SEL / ENC unfolded once)
+        lambda: implies(not (isinstance(datum, tuple) and not options.get("disable_tuple_notation")),
+                        0 <= A.SEL(schema, named_schemas, datum, options)
+                        and A.SEL(schema, named_schemas, datum, options) < len(schema)
+                        and A.CONFORMS(datum, schema[A.SEL(schema, named_schemas, datum, options)], named_schemas, options)
+                        and A.STRIP(schema, named_schemas, datum, options) == datum),
+        lambda: implies(not (isinstance(datum, tuple) and not options.get("disable_tuple_notation")),
+                        A.SEL(schema, named_schemas, datum, options)
+                        == (A.DEFER_DOUBLE(schema, named_schemas, A.FIRST_NONREC(schema, named_schemas, datum, options, 0))
+                            if A.FIRST_NONREC(schema, named_schemas, datum, options, 0) >= 0
+                            else A.BEST_REC(schema, named_schemas, datum, options, 0, -1, -1))),
+        lambda: implies(isinstance(datum, tuple) and not options.get("disable_tuple_notation"),
+                        len(datum) == 2 and 0 <= A.HINTED(schema, datum[0], 0) and A.HINTED(schema, datum[0], 0) < len(schema)
+                        and A.SEL(schema, named_schemas, datum, options) == A.HINTED(schema, datum[0], 0)
+                        and A.STRIP(schema, named_schemas, datum, options) == datum[1]
+                        and A.CONFORMS(datum[1], schema[A.HINTED(schema, datum[0], 0)], named_schemas, options)),
+        lambda: A.ENC(schema, named_schemas, datum, options)
+        == S.long_bytes(A.SEL(schema, named_schemas, datum, options))
+        + A.ENC(schema[A.SEL(schema, named_schemas, datum, options)], named_schemas,
+                A.STRIP(schema, named_schemas, datum, options), options),
+    ]
+    loops = {
+        # (name, value): no branch before _i carries the name
+        0: lambda encoder, schema, named_schemas, name, best_match_index: (
+            encoder._fo.data == old.encoder._fo.data and encoder._fo.pos == old.encoder._fo.pos
+            and best_match_index == -1 and A.WF_BRANCHES(schema, named_schemas, _i)
+            and A.HINTED(schema, name, 0) == A.HINTED(schema, name, _i)),
+        # the branch search, answer-preserving: what the rule yields for the whole union is what it
+        # yields for the branches still to be visited given the state kept so far
+        1: lambda encoder, datum, schema, named_schemas, options, best_match_index, most_fields, could_be_float: (
+            encoder._fo.data == old.encoder._fo.data and encoder._fo.pos == old.encoder._fo.pos
+            and same(datum, old.datum)
+            and A.WF_BRANCHES(schema, named_schemas, _i) and A.DEFAULTS_DATA_BRANCHES(schema, named_schemas, options, _i)
+            and isinstance(could_be_float, bool) and -1 <= most_fields
+            and implies(could_be_float,
+                        0 <= best_match_index and best_match_index < _i
+                        and A.FIRST_NONREC(schema, named_schemas, datum, options, 0) == best_match_index
+                        and A.TYPE(A.BDEF(schema[best_match_index], named_schemas)) == "float"
+                        and A.NEXT_DOUBLE(schema, best_match_index + 1) == A.NEXT_DOUBLE(schema, _i))
+            and implies(not could_be_float,
+                        -1 <= best_match_index and best_match_index < _i
+                        and (best_match_index == -1) == (most_fields == -1)
+                        and A.FIRST_NONREC(schema, named_schemas, datum, options, 0)
+                        == A.FIRST_NONREC(schema, named_schemas, datum, options, _i)
+                        and A.BEST_REC(schema, named_schemas, datum, options, 0, -1, -1)
+                        == A.BEST_REC(schema, named_schemas, datum, options, _i, best_match_index, most_fields))),
+        "comp0": lambda candidate, named_schemas: (
+            A.WF_FIELDS(candidate["fields"], named_schemas, _i) and _acc == A.NAMESET(candidate["fields"], _i)),
+    }
+    loop_hints = {1: [lambda: L.rec_branch_shape(schema[_i], named_schemas),
+                      lambda: L.valid_rec_is_dict(datum, schema[_i], named_schemas, options)]}
+    exit_hints = {0: [lambda: L.wf_branch_at(schema, named_schemas, 0, best_match_index),
+                      lambda: L.dd_branch_at(schema, named_schemas, options, 0, best_match_index)],
+                  1: [lambda: L.wf_branch_at(schema, named_schemas, 0, best_match_index),
+                      lambda: L.dd_branch_at(schema, named_schemas, options, 0, best_match_index)]}
+
+
+@target(W, "write_union", behavior="nohint")
+class write_union_nohint:
+    """C09: a (name, value) tuple naming no branch is an error, and nothing is written"""
+    types = dict(encoder="BinaryEncoder", datum="tuple", schema="list", named_schemas="dict", fname="py", options="dict")
+    requires = lambda encoder, datum, schema, named_schemas, options: (
+        encoder._fo.pos == len(encoder._fo.data) and len(datum) == 2 and A.WF(schema, named_schemas)
+        and not options.get("disable_tuple_notation") and A.HINTED(schema, datum[0], 0) < 0)
+    modifies = ["encoder._fo"]
+    raises = [R("ValueError", when=lambda datum: True,
+                ensures=lambda encoder: encoder._fo.data == old.encoder._fo.data and encoder._fo.pos == old.encoder._fo.pos)]
+    ensures = lambda result: False
+    uses_locals = ["name", "best_match_index"]
+    loops = {0: lambda encoder, schema, named_schemas, name, best_match_index: (
+        encoder._fo.data == old.encoder._fo.data and encoder._fo.pos == old.encoder._fo.pos
+        and best_match_index == -1 and A.WF_BRANCHES(schema, named_schemas, _i)
+        and A.HINTED(schema, name, 0) == A.HINTED(schema, name, _i))}
 
 
 @target(W, "write_record")
 class write_record:
     """fields in schema order; absent fields take the default or None (non-strict mode)"""
+    timeout = 40
+    opaque_here = ["VALID", "SEL", "STRIP", "DEFER_DOUBLE", "FIRST_NONREC", "BEST_REC"]
     types = dict(encoder="BinaryEncoder", datum="py", schema="dict", named_schemas="dict", fname="py", options="dict")
     requires = lambda encoder, datum, schema, named_schemas, options: (
         encoder._fo.pos == len(encoder._fo.data)
         and (A.TYPE(schema) == "record" or A.TYPE(schema) == "error") and A.WF(schema, named_schemas)
+        and A.DEFAULTS_DATA(schema, named_schemas, options) and is_data(datum)
         and A.CONFORMS(datum, schema, named_schemas, options)
         and not options.get("strict") and not options.get("strict_allow_default"))
     modifies = ["encoder._fo"]
@@ -225,6 +310,7 @@ class write_record:
         "comp0": lambda schema, named_schemas: A.WF_FIELDS(schema["fields"], named_schemas, _i),
         0: lambda encoder, datum, schema, named_schemas, options: (
             A.WF_FIELDS(schema["fields"], named_schemas, _i)
+            and A.DEFAULTS_DATA_FIELDS(schema["fields"], named_schemas, options, _i)
             and A.FIELDS_CONFORM(schema["fields"], datum, named_schemas, options, _i)
             and encoder._fo.pos == len(encoder._fo.data)
             and encoder._fo.data == old.encoder._fo.data
@@ -234,10 +320,12 @@ class write_record:
 @target(W, "write_data")
 class write_data:
     """dispatch over WRITERS and the by-name fallback through the name table"""
+    opaque_here = ["VALID", "SEL", "STRIP", "DEFER_DOUBLE", "FIRST_NONREC", "BEST_REC"]
     types = dict(encoder="BinaryEncoder", datum="py", schema="py", named_schemas="dict", fname="py", options="dict")
     requires = lambda encoder, datum, schema, named_schemas, options: (
         encoder._fo.pos == len(encoder._fo.data)
         and A.WF(schema, named_schemas) and implies(isinstance(schema, dict), "logicalType" not in schema)
+        and A.DEFAULTS_DATA(schema, named_schemas, options) and is_data(datum)
         and A.CONFORMS(datum, schema, named_schemas, options)
         and not options.get("strict") and not options.get("strict_allow_default"))
     modifies = ["encoder._fo"]
